@@ -20,6 +20,7 @@ from networkx.classes.digraph import DiGraph
 from networkx.exception import NetworkXError
 
 from pycel.excelutil import (
+    AddressCell,
     AddressMultiAreaRange,
     AddressRange,
     build_operator_operand_fixup,
@@ -922,8 +923,15 @@ class ExcelFormula:
                 name_space['_R_'] = _verif.wrap_read('range', evaluate_range, excel_formula)
 
             # function to fixup the operands
+            def resolve(operand):
+                if isinstance(operand, AddressRange):
+                    return name_space['_R_'](operand.address)
+                elif isinstance(operand, AddressCell):
+                    return name_space['_C_'](operand.address)
+                return operand
+
             name_space['excel_operator_operand_fixup'] = \
-                build_operator_operand_fixup(capture_error_state)
+                build_operator_operand_fixup(capture_error_state, resolve)
 
             # hook for the execed code to save the resulting lambda
             name_space['lambdas'] = lambdas = []
